@@ -218,6 +218,12 @@ var extOffers = [][]string{
 	{`foo; a="\\", permessage-deflate`},
 	{`foo; a="x\"y", bar`},
 	{`foo; a="permessage-deflate\"", bar; b="c"`},
+	// a malformed element whose quoted-string holds commas around the name
+	{`x-foo note="1, permessage-deflate, 2"`},
+	{`x-foo; a b="1, permessage-deflate, 2"`},
+	{`x-foo; =1; y=", permessage-deflate ,"`},
+	{`x-foo; y=", permessage-deflate ," z`},
+	{`a b c, x-foo; y="0, permessage-deflate; server_no_context_takeover; client_no_context_takeover, 1"`},
 }
 
 func genKeyOK(t *rapid.T, ok bool) []string {
@@ -314,7 +320,13 @@ func genServerHSCase(t *rapid.T) ServerHSCase {
 	} else {
 		n := rapid.IntRange(0, 3).Draw(t, "nresp")
 		for i := 0; i < n; i++ {
-			name := rapid.SampledFrom([]string{"Set-Cookie", "X-Custom", "X-Other", "Sec-Websocket-Protocol"}).Draw(t, "respname")
+			name := rapid.SampledFrom([]string{"Set-Cookie", "X-Custom", "X-Other", "Sec-Websocket-Protocol", "Sec-Websocket-Protocol", "Sec-Websocket-Extensions"}).Draw(t, "respname")
+			if name == "Sec-Websocket-Extensions" {
+				// the application tries to speak for the protocol: the library may
+				// refuse that, but may not let it announce what was not negotiated
+				c.Resp = append(c.Resp, RespKV{Name: name, Val: []byte(rapid.SampledFrom([]string{"permessage-deflate", "permessage-deflate; server_no_context_takeover; client_no_context_takeover", "x-other"}).Draw(t, "respext"))})
+				continue
+			}
 			var val []byte
 			switch rapid.IntRange(0, 3).Draw(t, "respvalkind") {
 			case 0:
@@ -557,8 +569,11 @@ func checkC12(c ServerHSCase, o *Obs) error {
 		if tr.Closed != 0 {
 			return errors.New("invalid handshake: the connection was closed although it was never hijacked (it belongs to net/http)")
 		}
-		if v.unspec {
-			return nil // which status is owed is only stated for requests with exactly one fault
+		if v.unspec || appSuppliedExt(c) {
+			// which status is owed is only stated for requests with exactly one
+			// fault (and an application-supplied extension header is refused with
+			// a status of its own, whatever else is wrong)
+			return nil
 		}
 		if len(v.faults) == 1 && v.faults[0] == "origin" && w.status != 403 {
 			return fmt.Errorf("origin not allowed: HTTP status %d, want 403", w.status)
@@ -608,6 +623,15 @@ func checkC12(c ServerHSCase, o *Obs) error {
 	}
 	// ---- valid request
 	o.Class("valid_request")
+	if appSuppliedExt(c) && conn == nil {
+		// refusing an application-supplied extension header is the library's
+		// documented answer (HTTP 500); nothing may have been hijacked
+		if w.hijacked != 0 && tr.Closed == 0 {
+			return errors.New("Upgrade refused an application-supplied Sec-Websocket-Extensions header after hijacking, without closing the connection")
+		}
+		o.Class("app_supplied_extension_header_refused")
+		return nil
+	}
 	if conn == nil {
 		return fmt.Errorf("valid opening handshake refused: %v (HTTP %d)", uerr, w.status)
 	}
@@ -697,7 +721,7 @@ func checkC12(c ServerHSCase, o *Obs) error {
 	}
 	if !c.RespNil {
 		for _, kv := range c.Resp {
-			if kv.Name == "Sec-Websocket-Protocol" {
+			if kv.Name == "Sec-Websocket-Protocol" || kv.Name == "Sec-Websocket-Extensions" {
 				continue
 			}
 			wantNames = append(wantNames, strings.ToLower(kv.Name))
@@ -727,6 +751,15 @@ func checkC12(c ServerHSCase, o *Obs) error {
 		o.NonTrivial("")
 	}
 	return nil
+}
+
+func appSuppliedExt(c ServerHSCase) bool {
+	for _, kv := range c.Resp {
+		if !c.RespNil && kv.Name == "Sec-Websocket-Extensions" {
+			return true
+		}
+	}
+	return false
 }
 
 func abbrevStr(b []byte, n int) string {
